@@ -79,13 +79,21 @@ def compare_stream(stream_text: str, listing_text: str):
         got = dec[n] if n < len(dec) else "(end of stream)"
         probs.append(("count", n, f"stream has {len(dec)} records, listing has {len(rinsts)} instruction lines; first divergence at line {where!r} vs record {got}"))
         return probs, rinsts, dec
+    seen = set()
     for n, (d, ri) in enumerate(zip(dec, rinsts)):
         if d[0] != ri.addr:
             probs.append(("address", n, f"record {n} has address {d[0]}, line is {ri.raw!r}"))
             break
         if d[1] not in ri.acceptable_mnemonics():
-            probs.append(("mnemonic", n, f"record {n} has mnemonic {d[1]!r}, line is {ri.raw!r}"))
-            break
+            pr = ri.prefix_as_mnemonic()
+            key = "prefix_token_read_as_mnemonic" if pr is not None and d[1] == pr[0] else None
+            sig = (key, None if key else line_shape(ri))
+            if sig in seen:
+                continue
+            seen.add(sig)
+            probs.append(("mnemonic", n, f"record {n} has mnemonic {d[1]!r} (operands {list(d[2])}), line is {ri.raw!r}", key))
+            if len(probs) >= 40:
+                break
     return probs, rinsts, dec
 
 
